@@ -1081,6 +1081,1031 @@ theorem deleteUpstream_ok {g : Ghost} {st st' : Store} {w w' : World} {k : Str} 
         exact hne (by rw [(hinv.lwf e hel).1, hen, ← (hinv.lwf e0 he0l).1, he0k])
       · exact hinv.gl.2 m (hle.2 m hm) e (hsub e he) hen
 
+/-- what a flush of the snapshot `l` writes -/
+def Wl (l : Loc) (it : Cond) : Prop := ∃ e ∈ l, Wc e.2 it
+
+theorem syncAll_spec (shard steps : Nat) : ∀ (l : Loc) (w w' : World) (r : Except Err Unit),
+    syncAll sh shard steps l w = (w', r) →
+    ∃ pts, Run (Wl l) (fun _ => False) (Named l) w pts w' ∧
+      (r = .ok () → Coherent l → ∀ e ∈ l, sh e.2.upstream = shard → holds w'.api e.2.name e.2.data) := by
+  intro l
+  induction l with
+  | nil =>
+    intro w w' r h
+    simp only [syncAll] at h
+    cases h
+    exact ⟨[], Run.refl _ _ _ _, fun _ _ e he => by cases he⟩
+  | cons x xs ih =>
+    intro w w' r h
+    have hW : ∀ it, Wl xs it → Wl (x :: xs) it := fun it ⟨e, he, hit⟩ => ⟨e, List.mem_cons_of_mem _ he, hit⟩
+    have hN : ∀ n, Named xs n → Named (x :: xs) n := fun n ⟨e, he, hn⟩ => ⟨e, List.mem_cons_of_mem _ he, hn⟩
+    simp only [syncAll] at h
+    split at h
+    · -- another shard's entry: skipped
+      rename_i hsh
+      obtain ⟨pts, hrun, hok⟩ := ih w w' r h
+      refine ⟨pts, hrun.mono hW (fun _ h => h) hN, ?_⟩
+      intro hr hcoh e he hown
+      rcases List.mem_cons.1 he with rfl | he
+      · exact absurd hown hsh
+      · exact hok hr (hcoh.sub (fun e he => List.mem_cons_of_mem _ he)) e he hown
+    · cases hC : createOrUpdate steps x.2 w with
+      | mk w1 r1 =>
+      rw [hC] at h
+      obtain ⟨p1, hr1, hok1⟩ := createOrUpdate_spec _ x.2 w w1 r1 hC
+      have hr1' : Run (Wl (x :: xs)) (fun _ => False) (Named (x :: xs)) w p1 w1 :=
+        hr1.mono (fun it hit => ⟨x, List.mem_cons_self .., hit⟩) (fun _ h => h) (fun n hn => ⟨x, List.mem_cons_self .., hn.symm⟩)
+      cases r1 with
+      | error e =>
+        simp only [] at h
+        cases h
+        exact ⟨p1, hr1', fun hx => by cases hx⟩
+      | ok c' =>
+        simp only [] at h
+        obtain ⟨p2, hr2, hok2⟩ := ih w1 w' r h
+        refine ⟨p1 ++ p2, hr1'.trans (hr2.mono hW (fun _ h => h) hN), ?_⟩
+        intro hr hcoh e he hown
+        have hcohxs : Coherent xs := hcoh.sub (fun e he => List.mem_cons_of_mem _ he)
+        rcases List.mem_cons.1 he with rfl | he
+        · by_cases hex : ∃ e' ∈ xs, e'.2.name = e.2.name
+          · obtain ⟨e', he', hn⟩ := hex
+            have hd : e'.2.data = e.2.data := hcoh e' (List.mem_cons_of_mem _ he') e (List.mem_cons_self ..) hn
+            have hown' : sh e'.2.upstream = shard := by rw [data_upstream hd]; exact hown
+            have := hok2 hr hcohxs e' he' hown'
+            rw [hn, hd] at this
+            exact this
+          · apply path_holds hr2.2 _ (fun h => h) _ (hok1 c' rfl).1
+            · rintro it ⟨e', he', hit⟩ hn
+              exact absurd ⟨e', he', hit.1.symm.trans hn⟩ hex
+            · rintro ⟨e', he', hn⟩
+              exact hex ⟨e', he', hn⟩
+        · exact hok2 hr hcohxs e he hown
+
+theorem compat_of_gl {g : Ghost} {l l' : Loc} (hgl : GL g l) (hs : ∀ e ∈ l', e ∈ l) : Compat (Wl l') (fun _ => False) g := by
+  refine ⟨?_, fun _ hn => hn.elim⟩
+  rintro it ⟨e, he, hit⟩
+  refine ⟨fun h hh hn => ?_, fun hn => ?_⟩
+  · rw [hit.2]
+    exact (hgl.1 h hh e (hs e he) (hit.1.symm.trans hn.symm)).symm
+  · exact hgl.2 _ hn e (hs e he) hit.1.symm
+
+theorem wl_wf {l l' : Loc} (hw : LocWf up l) (hs : ∀ e ∈ l', e ∈ l) : ∀ it, Wl l' it → it.upstream = up it.name := by
+  rintro it ⟨e, he, hit⟩
+  rw [data_upstream hit.2, hit.1]
+  exact (hw e (hs e he)).2
+
+/-- the claims after a flush that answered nil -/
+theorem inv_holdFlushed {g g' : Ghost} {st : Store} {a : Api} (hle : Le g' g) (hj : Jp g' a) (hgl : GL g st.loc)
+    (hlwf : LocWf up st.loc) (hcoh : Coherent st.loc) (hawf : ApiWf up a) {own : Loc}
+    (hown : ∀ e ∈ own, e ∈ st.loc ∧ holds a e.2.name e.2.data) : Inv up (holdFlushed own g') st a := by
+  refine ⟨⟨?_, ?_⟩, ⟨?_, ?_⟩, hlwf, hcoh, hawf⟩
+  · intro h hh
+    rcases holdFlushed_held hh with ⟨e, he, rfl⟩ | hh
+    · exact (hown e he).2
+    · exact hj.1 h hh
+  · intro m hm
+    exact hj.2 m (holdFlushed_gone hm)
+  · intro h hh e he hn
+    rcases holdFlushed_held hh with ⟨e0, he0, rfl⟩ | hh
+    · exact hcoh e he e0 (hown e0 he0).1 hn
+    · exact hgl.1 h (hle.1 h hh) e he hn
+  · intro m hm e he hen
+    exact hgl.2 m (hle.2 m (holdFlushed_gone hm)) e he hen
+
+theorem flush_ok {g : Ghost} {st st' : Store} {w w' : World} {ord : List (Str × Str)} {res : Res}
+    (hinv : Inv up g st w.api) (h : flush sh st ord w = (st', w', res)) :
+    OpOk sh up g st w (.flush ord) st' w' res := by
+  unfold OpOk
+  unfold flush at h
+  simp only [ghostPre]
+  cases hS : syncAll sh st.cfg.shard st.cfg.steps (arrange ord st.loc) w with
+  | mk w1 r =>
+  rw [hS] at h
+  obtain ⟨pts, hrun, hok⟩ := syncAll_spec sh _ _ _ w w1 r hS
+  have hsub : ∀ e ∈ arrange ord st.loc, e ∈ st.loc := fun e he => mem_arrange.1 he
+  have hj := run_judge hrun (compat_of_gl hinv.gl hsub) hinv.jp
+  have hle : Le (annotate g (newPts w w1)).2 g := annotate_le _ _
+  have hawf : ApiWf up w1.api := path_apiWf hrun.2 (wl_wf up hinv.lwf hsub) hinv.awf
+  cases r with
+  | error e =>
+    simp only [] at h
+    cases h
+    simp only [ghostPost]
+    exact ⟨hj.1, ⟨hj.2, hinv.gl.le hle, hinv.lwf, hinv.coh, hawf⟩⟩
+  | ok u =>
+    simp only [] at h
+    cases h
+    simp only [ghostPost]
+    refine ⟨hj.1, inv_holdFlushed up hle hj.2 hinv.gl hinv.lwf hinv.coh hawf ?_⟩
+    intro e he
+    obtain ⟨hel, hown⟩ := List.mem_filter.1 he
+    exact ⟨hel, hok rfl (hinv.coh.sub hsub) e (mem_arrange.2 hel) (by simpa using hown)⟩
+
+theorem stop_ok {g : Ghost} {st st' : Store} {w w' : World} {ord : List (Str × Str)} {res : Res}
+    (hinv : Inv up g st w.api) (h : stop sh st ord w = (st', w', res)) :
+    OpOk sh up g st w (.stop ord) st' w' res := by
+  unfold OpOk
+  unfold stop at h
+  simp only [ghostPre]
+  split at h
+  · rename_i hst
+    cases h
+    simp only [newPts_self, annotate, ghostPost, hst, if_true]
+    exact ⟨fun q hq => (by cases hq), hinv⟩
+  · rename_i hst
+    cases hS : syncAll sh st.cfg.shard st.cfg.steps (arrange ord st.loc) w with
+    | mk w1 r =>
+    rw [hS] at h
+    obtain ⟨pts, hrun, hok⟩ := syncAll_spec sh _ _ _ w w1 r hS
+    have hsub : ∀ e ∈ arrange ord st.loc, e ∈ st.loc := fun e he => mem_arrange.1 he
+    have hj := run_judge hrun (compat_of_gl hinv.gl hsub) hinv.jp
+    have hle : Le (annotate g (newPts w w1)).2 g := annotate_le _ _
+    have hawf : ApiWf up w1.api := path_apiWf hrun.2 (wl_wf up hinv.lwf hsub) hinv.awf
+    cases r with
+    | error e =>
+      simp only [] at h
+      cases h
+      simp only [ghostPost]
+      exact ⟨hj.1, ⟨hj.2, hinv.gl.le hle, hinv.lwf, hinv.coh, hawf⟩⟩
+    | ok u =>
+      simp only [] at h
+      cases h
+      simp only [ghostPost, hst]
+      refine ⟨hj.1, ?_⟩
+      have := inv_holdFlushed up (st := st) (own := ownEntries sh st) hle hj.2 hinv.gl hinv.lwf hinv.coh hawf (by
+        intro e he
+        obtain ⟨hel, hown⟩ := List.mem_filter.1 he
+        exact ⟨hel, hok rfl (hinv.coh.sub hsub) e (mem_arrange.2 hel) (by simpa using hown)⟩)
+      exact ⟨this.jp, this.gl, this.lwf, this.coh, this.awf⟩
+
+theorem loadAll_inv {g : Ghost} {a : Api} (shard : Nat) (hj : Jp g a) (hawf : ApiWf up a) :
+    ∀ (items : List Cond) (l : Loc), (∀ c ∈ items, c ∈ a.objs) → GL g l → LocWf up l → Coherent l →
+      GL g (loadAll sh shard items l) ∧ LocWf up (loadAll sh shard items l) ∧ Coherent (loadAll sh shard items l) := by
+  intro items
+  induction items with
+  | nil => intro l _ h1 h2 h3; exact ⟨h1, h2, h3⟩
+  | cons c rest ih =>
+    intro l hitems h1 h2 h3
+    have hrest : ∀ c ∈ rest, c ∈ a.objs := fun c hc => hitems c (List.mem_cons_of_mem _ hc)
+    simp only [loadAll]
+    split
+    · exact ih l hrest h1 h2 h3
+    · have hc : c ∈ a.objs := hitems c (List.mem_cons_self ..)
+      have hk : c.upstream = up c.name := hawf.1 c hc
+      apply ih _ hrest _ (lput_wf h2 hk hk) (lput_coherent h3 h2 hk)
+      constructor
+      · intro h hh e he hn
+        rcases mem_lput.1 he with rfl | ⟨he, _⟩
+        · obtain ⟨c0, hg, hd⟩ := hj.1 h hh
+          have hn' : c.name = h.1 := hn
+          rw [← hn', hawf.2 c hc] at hg
+          cases hg
+          exact hd
+        · exact h1.1 h hh e he hn
+      · intro n hn e he hen
+        rcases mem_lput.1 he with rfl | ⟨he, _⟩
+        · have := hj.2 n hn
+          have hen' : c.name = n := hen
+          rw [← hen', hawf.2 c hc] at this
+          cases this
+        · exact h1.2 n hn e he hen
+
+theorem load_ok {g : Ghost} {st st' : Store} {w w' : World} {res : Res}
+    (hinv : Inv up g st w.api) (h : load sh st w = (st', w', res)) :
+    OpOk sh up g st w .load st' w' res := by
+  unfold OpOk
+  unfold load at h
+  simp only [ghostPre]
+  cases hL : apiList w with
+  | mk w1 r =>
+  rw [hL] at h
+  obtain ⟨p, hrun, hsame, hitems⟩ := apiList_spec w w1 r hL
+  have hcompat : Compat (fun _ => False) (fun _ => False) g := ⟨fun _ hit => hit.elim, fun _ hn => hn.elim⟩
+  have hj := run_judge hrun hcompat hinv.jp
+  have hle : Le (annotate g (newPts w w1)).2 g := annotate_le _ _
+  have hawf : ApiWf up w1.api := hsame ▸ hinv.awf
+  cases r with
+  | error e =>
+    simp only [] at h
+    cases h
+    simp only [ghostPost]
+    exact ⟨hj.1, ⟨hj.2, hinv.gl.le hle, hinv.lwf, hinv.coh, hawf⟩⟩
+  | ok items =>
+    have hi : ∀ c ∈ items, c ∈ w1.api.objs := by
+      intro c hc
+      rw [hitems items rfl] at hc
+      rw [hsame]; exact hc
+    simp only [] at h
+    cases h
+    simp only [ghostPost]
+    obtain ⟨h1, h2, h3⟩ := loadAll_inv sh up st.cfg.shard hj.2 hawf items st.loc hi (hinv.gl.le hle) hinv.lwf hinv.coh
+    exact ⟨hj.1, ⟨hj.2, h1, h2, h3, hawf⟩⟩
+
+theorem step_ok {g : Ghost} {st st' : Store} {w w' : World} {op : Op} {res : Res}
+    (hinv : Inv up g st w.api) (hwf : OpWf up op) (h : step sh st op w = (st', w', res)) :
+    OpOk sh up g st w op st' w' res := by
+  cases op with
+  | save k c => exact save_ok sh up hinv hwf h
+  | delete k n => exact delete_ok sh up hinv hwf h
+  | deleteUpstream k ord => exact deleteUpstream_ok sh up hinv h
+  | flush ord => exact flush_ok sh up hinv h
+  | stop ord => exact stop_ok sh up hinv h
+  | load => exact load_ok sh up hinv h
+  | restart s wt =>
+    simp only [step] at h
+    cases h
+    unfold OpOk
+    simp only [ghostPre, ghostPost, newPts_self, annotate]
+    refine ⟨fun q hq => (by cases hq), ⟨hinv.jp, ⟨?_, ?_⟩, ?_, ?_, hinv.awf⟩⟩
+    · intro h _ e he; cases he
+    · intro n _ e he; cases he
+    · intro e he; cases he
+    · intro e he; cases he
+
+/-! ## 7. A call of another goroutine inside a running flush -/
+
+theorem syncAll_append (shard steps : Nat) : ∀ (l1 l2 : Loc) (w : World),
+    syncAll sh shard steps (l1 ++ l2) w =
+      match syncAll sh shard steps l1 w with
+      | (w1, .error e) => (w1, .error e)
+      | (w1, .ok _) => syncAll sh shard steps l2 w1 := by
+  intro l1
+  induction l1 with
+  | nil => intro l2 w; simp [syncAll]
+  | cons x xs ih =>
+    intro l2 w
+    simp only [List.cons_append, syncAll]
+    split
+    · exact ih l2 w
+    · cases hC : createOrUpdate steps x.2 w with
+      | mk w1 r1 =>
+      cases r1 with
+      | error e => simp
+      | ok c' => simp only []; exact ih l2 w1
+
+theorem inv_holdFlushed' {g g' : Ghost} {st : Store} {a : Api} (hle : Le g' g) (hj : Jp g' a) (hgl : GL g st.loc)
+    (hlwf : LocWf up st.loc) (hcoh : Coherent st.loc) (hawf : ApiWf up a) {own : Loc}
+    (hown : ∀ e ∈ own, holds a e.2.name e.2.data ∧ ∀ e' ∈ st.loc, e'.2.name = e.2.name → e'.2.data = e.2.data) :
+    Inv up (holdFlushed own g') st a := by
+  refine ⟨⟨?_, ?_⟩, ⟨?_, ?_⟩, hlwf, hcoh, hawf⟩
+  · intro h hh
+    rcases holdFlushed_held hh with ⟨e, he, rfl⟩ | hh
+    · exact (hown e he).1
+    · exact hj.1 h hh
+  · intro m hm
+    exact hj.2 m (holdFlushed_gone hm)
+  · intro h hh e he hn
+    rcases holdFlushed_held hh with ⟨e0, he0, rfl⟩ | hh
+    · exact (hown e0 he0).2 e he hn
+    · exact hgl.1 h (hle.1 h hh) e he hn
+  · intro m hm e he hen
+    exact hgl.2 m (hle.2 m (holdFlushed_gone hm)) e he hen
+
+/-- the outcomes of the flush loop with a window -/
+theorem syncWindow_cases {st st2 : Store} {snap : Loc} {at_ : Nat} {intr : Op} {w w3 : World} {r : Except Err Unit}
+    {ir : Option (Res × World × World)} (h : syncWindow sh st snap at_ intr w = (st2, w3, r, ir)) :
+    (ir = none ∧ st2 = st ∧ syncAll sh st.cfg.shard st.cfg.steps snap w = (w3, r)) ∨
+    (∃ ires w1 w2 u, ir = some (ires, w1, w2) ∧ syncAll sh st.cfg.shard st.cfg.steps (snap.take at_) w = (w1, .ok u) ∧
+      step sh st intr w1 = (st2, w2, ires) ∧ syncAll sh st.cfg.shard st.cfg.steps (snap.drop at_) w2 = (w3, r)) := by
+  unfold syncWindow at h
+  split at h
+  · left
+    cases hS : syncAll sh st.cfg.shard st.cfg.steps snap w with
+    | mk w1 r1 =>
+    rw [hS] at h
+    cases h
+    exact ⟨rfl, rfl, rfl⟩
+  · cases hS : syncAll sh st.cfg.shard st.cfg.steps (snap.take at_) w with
+    | mk w1 r1 =>
+    rw [hS] at h
+    cases r1 with
+    | error e =>
+      left
+      simp only [] at h
+      cases h
+      refine ⟨rfl, rfl, ?_⟩
+      have := syncAll_append sh st.cfg.shard st.cfg.steps (snap.take at_) (snap.drop at_) w
+      rw [List.take_append_drop, hS] at this
+      exact this
+    | ok u =>
+      right
+      simp only [] at h
+      cases hI : step sh st intr w1 with
+      | mk st' rest =>
+      obtain ⟨w2, ires⟩ := rest
+      rw [hI] at h
+      simp only [] at h
+      cases hS2 : syncAll sh st.cfg.shard st.cfg.steps (snap.drop at_) w2 with
+      | mk w3' r3 =>
+      rw [hS2] at h
+      cases h
+      exact ⟨ires, w1, w2, u, rfl, rfl, hI, hS2⟩
+
+theorem ghostPost_flush (st : Store) (ord : List (Str × Str)) (res : Res) (x : Ghost) :
+    ghostPost sh st (.flush ord) res x = if res = .ok then holdFlushed (ownEntries sh st) x else x := by
+  cases res <;> simp [ghostPost]
+
+theorem ghostPost_stop (st : Store) (ord : List (Str × Str)) (res : Res) (x : Ghost) (hst : st.stopped = false) :
+    ghostPost sh st (.stop ord) res x = if res = .ok then holdFlushed (ownEntries sh st) x else x := by
+  cases res <;> simp [ghostPost, hst]
+
+/-- a periodic `Save` touches nothing but the cache -/
+theorem save_periodic {st st2 : Store} {k : Str} {c : Cond} {w w2 : World} {ires : Res} (hper : st.cfg.writeThrough = false)
+    (h : step sh st (.save k c) w = (st2, w2, ires)) :
+    w2 = w ∧ st2.cfg = st.cfg ∧ st2.stopped = st.stopped ∧ (∀ e ∈ st2.loc, e = (k, c) ∨ e ∈ st.loc) := by
+  simp only [step, save, hper] at h
+  split at h
+  · cases h; exact ⟨rfl, rfl, rfl, fun e he => .inr he⟩
+  · simp only [Bool.false_eq_true, if_false] at h
+    cases h
+    refine ⟨rfl, rfl, rfl, fun e he => ?_⟩
+    rcases mem_lput.1 he with rfl | ⟨he, _⟩
+    · exact .inl rfl
+    · exact .inr he
+
+theorem ghostPost_save_periodic (st : Store) (k : Str) (c : Cond) (res : Res) (x : Ghost) (hper : st.cfg.writeThrough = false) :
+    ghostPost sh st (.save k c) res x = x := by
+  cases res <;> simp [ghostPost, hper]
+
+theorem ghostPre_save_le (st : Store) (k : Str) (c : Cond) (x : Ghost) : Le (ghostPre sh st (.save k c) x) x := by
+  simp only [ghostPre]
+  split
+  · exact Le.refl _
+  · exact forget_le _ _
+
+/-- The core of `checkObs` for a flush in whose window a periodic `Save` ran: every point honours the judge, and the
+    invariant holds afterwards. -/
+theorem window_ok {g : Ghost} {st st2 : Store} {w w1 w2 w3 : World} {ord : List (Str × Str)} {at_ : Nat} {k : Str} {c : Cond}
+    {ires : Res} {r : Except Err Unit} {u : Unit}
+    (hinv : Inv up g st w.api) (hwf : OpWf up (.save k c)) (hper : st.cfg.writeThrough = false)
+    (h1 : syncAll sh st.cfg.shard st.cfg.steps ((arrange ord st.loc).take at_) w = (w1, .ok u))
+    (hI : step sh st (.save k c) w1 = (st2, w2, ires))
+    (h3 : syncAll sh st.cfg.shard st.cfg.steps ((arrange ord st.loc).drop at_) w2 = (w3, r)) :
+    let a1 := annotate g (newPts w w1)
+    let a2 := annotate (ghostPre sh st (.save k c) a1.2) (newPts w1 w2)
+    let gc := ghostPost sh st (.save k c) ires a2.2
+    let a3 := annotate gc (newPts w2 w3)
+    let own := (ownEntries sh st).filter (fun e => ! (raced (.save k c)).contains e.2.name)
+    let ge := if (match r with | .ok _ => Res.ok | .error _ => Res.err .other) = Res.ok then holdFlushed own a3.2 else a3.2
+    (∀ q ∈ a1.1 ++ a2.1 ++ a3.1, Jp q.1 q.2) ∧ Inv up ge st2 w3.api := by
+  intro a1 a2 gc a3 own ge
+  have hsub : ∀ e ∈ arrange ord st.loc, e ∈ st.loc := fun e he => mem_arrange.1 he
+  have hsub1 : ∀ e ∈ (arrange ord st.loc).take at_, e ∈ st.loc := fun e he => hsub e (List.mem_of_mem_take he)
+  have hsub3 : ∀ e ∈ (arrange ord st.loc).drop at_, e ∈ st.loc := fun e he => hsub e (List.mem_of_mem_drop he)
+  -- before the window
+  obtain ⟨p1, hrun1, _⟩ := syncAll_spec sh _ _ _ w w1 _ h1
+  have hj1 := run_judge hrun1 (compat_of_gl hinv.gl hsub1) hinv.jp
+  have hle1 : Le a1.2 g := annotate_le _ _
+  have hawf1 : ApiWf up w1.api := path_apiWf hrun1.2 (wl_wf up hinv.lwf hsub1) hinv.awf
+  have hinv1 : Inv up a1.2 st w1.api := ⟨hj1.2, hinv.gl.le hle1, hinv.lwf, hinv.coh, hawf1⟩
+  -- the intruder
+  have hI' := step_ok sh up hinv1 hwf hI
+  obtain ⟨hw2, _, _, hloc2⟩ := save_periodic sh hper hI
+  have hinv2 : Inv up gc st2 w2.api := hI'.2
+  have hgc : gc = a2.2 := ghostPost_save_periodic sh st k c ires a2.2 hper
+  have hlec : Le gc g := by
+    rw [hgc]
+    exact ((annotate_le _ _).trans (ghostPre_save_le sh st k c a1.2)).trans hle1
+  -- after the window
+  obtain ⟨p3, hrun3, hok3⟩ := syncAll_spec sh _ _ _ w2 w3 r h3
+  have hj3 := run_judge hrun3 ((compat_of_gl hinv.gl hsub3).le hlec) hinv2.jp
+  have hle3 : Le a3.2 gc := annotate_le _ _
+  have hawf3 : ApiWf up w3.api := path_apiWf hrun3.2 (wl_wf up hinv.lwf hsub3) hinv2.awf
+  refine ⟨?_, ?_⟩
+  · intro q hq
+    rcases List.mem_append.1 hq with hq | hq
+    · rcases List.mem_append.1 hq with hq | hq
+      · exact hj1.1 q hq
+      · exact hI'.1 q hq
+    · exact hj3.1 q hq
+  · show Inv up ge st2 w3.api
+    cases r with
+    | error e =>
+      have : ge = a3.2 := by simp [ge]
+      rw [this]
+      exact ⟨hj3.2, hinv2.gl.le hle3, hinv2.lwf, hinv2.coh, hawf3⟩
+    | ok u3 =>
+      have : ge = holdFlushed own a3.2 := by simp [ge]
+      rw [this]
+      apply inv_holdFlushed' up hle3 hj3.2 hinv2.gl hinv2.lwf hinv2.coh hawf3
+      intro e he
+      obtain ⟨heo, hraced⟩ := List.mem_filter.1 he
+      obtain ⟨hel, hown⟩ := List.mem_filter.1 heo
+      have hne : ¬ e.2.name = c.name := by
+        intro hn
+        simp [raced, hn] at hraced
+      constructor
+      · -- the whole snapshot was written: the two halves are one flush (the periodic Save made no call)
+        have hall := syncAll_append sh st.cfg.shard st.cfg.steps ((arrange ord st.loc).take at_) ((arrange ord st.loc).drop at_) w
+        rw [List.take_append_drop, h1] at hall
+        simp only [] at hall
+        rw [← hw2, h3] at hall
+        obtain ⟨_, _, hokall⟩ := syncAll_spec sh _ _ _ w w3 _ hall
+        exact hokall rfl (hinv.coh.sub hsub) e (mem_arrange.2 hel) (by simpa using hown)
+      · intro e' he' hn
+        rcases hloc2 e' he' with rfl | he'
+        · exact absurd hn.symm hne
+        · exact hinv.coh e' he' e hel hn
+
+/-! ## 7b. Every call sequence is a path; names stay unique; absent stays absent at every point -/
+
+theorem path_absent_pts {W : Cond → Prop} {D V : Str → Prop} {a a' : Api} {pts : List Pt} {n : Str}
+    (hp : Path W D V a pts a') (hW : ∀ it, W it → ¬ it.name = n) (h : a.get n = none) :
+    ∀ p ∈ pts, p.api.get n = none := by
+  induction hp with
+  | nil a => intro p hp; cases hp
+  | cons hs hrest ih =>
+    rename_i a0 p0 ps0 a1
+    have h0 : p0.api.get n = none := path_absent (.cons hs (.nil _)) hW h
+    intro p hp
+    rcases List.mem_cons.1 hp with rfl | hp
+    · exact h0
+    · exact ih h0 p hp
+
+/-- no two objects of the API carry the same name -/
+def ApiNodup (a : Api) : Prop := a.objs.Pairwise (fun c d => ¬ c.name = d.name)
+
+theorem nodup_write {a : Api} (c : Cond) (h : ApiNodup a) : ApiNodup (a.write c) := by
+  unfold ApiNodup Api.write
+  simp only [List.pairwise_cons]
+  refine ⟨?_, h.sublist List.filter_sublist⟩
+  intro d hd
+  have := (List.mem_filter.1 hd).2
+  intro e
+  simp [e] at this
+
+theorem nodup_remove {a : Api} (n : Str) (h : ApiNodup a) : ApiNodup (a.remove n) := by
+  unfold ApiNodup Api.remove
+  exact h.sublist List.filter_sublist
+
+theorem path_nodup {W : Cond → Prop} {D V : Str → Prop} {a a' : Api} {pts : List Pt}
+    (hp : Path W D V a pts a') (h : ApiNodup a) : (∀ p ∈ pts, ApiNodup p.api) ∧ ApiNodup a' := by
+  induction hp with
+  | nil a => exact ⟨fun p hp => (by cases hp), h⟩
+  | cons hs hrest ih =>
+    rename_i a0 p0 ps0 a1
+    have h0 : ApiNodup p0.api := by
+      cases hs with
+      | same hv ha => rw [ha]; exact h
+      | wr it hw hv ha => rw [ha]; exact nodup_write it h
+      | rm n hd hv ha => rw [ha]; exact nodup_remove n h
+      | ext n hx hv ha => rw [ha]; exact nodup_remove n h
+    obtain ⟨h1, h2⟩ := ih h0
+    refine ⟨?_, h2⟩
+    intro p hp
+    rcases List.mem_cons.1 hp with rfl | hp
+    · exact h0
+    · exact h1 p hp
+
+/-- `AnyRun w pts w'`: the world went from `w` to `w'` by some calls -/
+abbrev AnyRun (w : World) (pts : List Pt) (w' : World) : Prop := Run (fun _ => True) (fun _ => True) (fun _ => True) w pts w'
+
+theorem Run.any {W : Cond → Prop} {D V : Str → Prop} {w w' : World} {pts : List Pt} (h : Run W D V w pts w') : AnyRun w pts w' :=
+  h.mono (fun _ _ => trivial) (fun _ _ => trivial) (fun _ _ => trivial)
+
+theorem step_run {st st' : Store} {op : Op} {w w' : World} {res : Res} (h : step sh st op w = (st', w', res)) :
+    ∃ pts, AnyRun w pts w' := by
+  cases op with
+  | save k c =>
+    simp only [step, save] at h
+    split at h
+    · cases h; exact ⟨[], Run.refl _ _ _ _⟩
+    · split at h
+      · cases hC : createOrUpdate st.cfg.steps c w with
+        | mk w1 r =>
+        rw [hC] at h
+        obtain ⟨pts, hr, _⟩ := createOrUpdate_spec _ c w w1 r hC
+        cases r <;> (simp only [] at h; cases h; exact ⟨pts, hr.any⟩)
+      · cases h; exact ⟨[], Run.refl _ _ _ _⟩
+  | delete k n =>
+    simp only [step, delete] at h
+    cases hD : delLoop n st.cfg.steps w with
+    | mk w1 r =>
+    rw [hD] at h
+    obtain ⟨pts, hr, _⟩ := delLoop_spec n _ w w1 r hD
+    cases r <;> (simp only [] at h; cases h; exact ⟨pts, hr.any⟩)
+  | deleteUpstream k ord =>
+    simp only [step, deleteUpstream] at h
+    cases hD : delAll st.cfg.steps (arrange ord (llistUp k st.loc)) w with
+    | mk w1 r =>
+    rw [hD] at h
+    obtain ⟨pts, hr, _⟩ := delAll_spec _ _ w w1 r hD
+    cases r <;> (simp only [] at h; cases h; exact ⟨pts, hr.any⟩)
+  | flush ord =>
+    simp only [step, flush] at h
+    cases hS : syncAll sh st.cfg.shard st.cfg.steps (arrange ord st.loc) w with
+    | mk w1 r =>
+    rw [hS] at h
+    obtain ⟨pts, hr, _⟩ := syncAll_spec sh _ _ _ w w1 r hS
+    cases r <;> (simp only [] at h; cases h; exact ⟨pts, hr.any⟩)
+  | stop ord =>
+    simp only [step, stop] at h
+    split at h
+    · cases h; exact ⟨[], Run.refl _ _ _ _⟩
+    · cases hS : syncAll sh st.cfg.shard st.cfg.steps (arrange ord st.loc) w with
+      | mk w1 r =>
+      rw [hS] at h
+      obtain ⟨pts, hr, _⟩ := syncAll_spec sh _ _ _ w w1 r hS
+      cases r <;> (simp only [] at h; cases h; exact ⟨pts, hr.any⟩)
+  | load =>
+    simp only [step, load] at h
+    cases hL : apiList w with
+    | mk w1 r =>
+    rw [hL] at h
+    obtain ⟨p, hr, _, _⟩ := apiList_spec w w1 r hL
+    cases r <;> (simp only [] at h; cases h; exact ⟨[p], hr.any⟩)
+  | restart s wt =>
+    simp only [step] at h
+    cases h; exact ⟨[], Run.refl _ _ _ _⟩
+
+theorem stepI_run {st st' : Store} {op : OpI} {w w' : World} {res : Res} {ir : Option (Res × World × World)}
+    (h : stepI sh st op w = (st', w', res, ir)) : ∃ pts, AnyRun w pts w' := by
+  have hwin : ∀ {st st2 : Store} {snap : Loc} {at_ : Nat} {intr : Op} {w w3 : World} {r : Except Err Unit}
+      {ir : Option (Res × World × World)}, syncWindow sh st snap at_ intr w = (st2, w3, r, ir) → ∃ pts, AnyRun w pts w3 := by
+    intro st st2 snap at_ intr w w3 r ir hS
+    rcases syncWindow_cases sh hS with ⟨_, _, hall⟩ | ⟨ires, w1, w2, u, _, h1, hI, h3⟩
+    · obtain ⟨pts, hr, _⟩ := syncAll_spec sh _ _ _ w w3 r hall
+      exact ⟨pts, hr.any⟩
+    · obtain ⟨p1, hr1, _⟩ := syncAll_spec sh _ _ _ w w1 _ h1
+      obtain ⟨p2, hr2⟩ := step_run sh hI
+      obtain ⟨p3, hr3, _⟩ := syncAll_spec sh _ _ _ w2 w3 r h3
+      exact ⟨p1 ++ p2 ++ p3, (hr1.any.trans hr2).trans hr3.any⟩
+  cases op with
+  | plain op =>
+    cases hS : step sh st op w with
+    | mk st1 rest =>
+    obtain ⟨w1, r⟩ := rest
+    simp only [stepI, hS] at h
+    cases h
+    exact step_run sh hS
+  | flushI ord at_ intr =>
+    cases hS : syncWindow sh st (arrange ord st.loc) at_ intr w with
+    | mk st2 rest =>
+    obtain ⟨w3, r, ir'⟩ := rest
+    simp only [stepI, hS] at h
+    obtain ⟨pts, hr⟩ := hwin hS
+    cases r <;> (simp only [] at h; cases h; exact ⟨pts, hr⟩)
+  | stopI ord at_ intr =>
+    simp only [stepI] at h
+    split at h
+    · cases h; exact ⟨[], Run.refl _ _ _ _⟩
+    · cases hS : syncWindow sh st (arrange ord st.loc) at_ intr w with
+      | mk st2 rest =>
+      obtain ⟨w3, r, ir'⟩ := rest
+      rw [hS] at h
+      obtain ⟨pts, hr⟩ := hwin hS
+      cases r <;> (simp only [] at h; cases h; exact ⟨pts, hr⟩)
+
+/-! ## 7c. A condition that is neither in the API nor in the cache stays so until it is saved again -/
+
+/-- `n` is neither persisted nor cached -/
+def Abs (n : Str) (st : Store) (a : Api) : Prop := a.get n = none ∧ ∀ e ∈ st.loc, ¬ e.2.name = n
+
+def savesName (n : Str) : Op → Prop
+  | .save _ c => c.name = n
+  | _ => False
+
+def savesNameI (n : Str) : OpI → Prop
+  | .plain op => savesName n op
+  | .flushI _ _ i => savesName n i
+  | .stopI _ _ i => savesName n i
+
+theorem run_abs {W : Cond → Prop} {D V : Str → Prop} {w w' : World} {pts : List Pt} {n : Str}
+    (hr : Run W D V w pts w') (hW : ∀ it, W it → ¬ it.name = n) (h : w.api.get n = none) :
+    (∀ p ∈ pts, p.api.get n = none) ∧ w'.api.get n = none :=
+  ⟨path_absent_pts hr.2 hW h, path_absent hr.2 hW h⟩
+
+theorem wl_abs {l l' : Loc} {n : Str} (hl : ∀ e ∈ l, ¬ e.2.name = n) (hs : ∀ e ∈ l', e ∈ l) :
+    ∀ it, Wl l' it → ¬ it.name = n := by
+  rintro it ⟨e, he, hit⟩ hn
+  exact hl e (hs e he) (hit.1.symm.trans hn)
+
+theorem step_abs {n : Str} {st st' : Store} {op : Op} {w w' : World} {res : Res}
+    (habs : Abs n st w.api) (hns : ¬ savesName n op) (h : step sh st op w = (st', w', res)) :
+    ∃ pts, AnyRun w pts w' ∧ (∀ p ∈ pts, p.api.get n = none) ∧ Abs n st' w'.api := by
+  obtain ⟨ha, hl⟩ := habs
+  cases op with
+  | save k c =>
+    have hne : ¬ c.name = n := hns
+    simp only [step, save] at h
+    split at h
+    · cases h; exact ⟨[], Run.refl _ _ _ _, fun p hp => (by cases hp), ha, hl⟩
+    · split at h
+      · cases hC : createOrUpdate st.cfg.steps c w with
+        | mk w1 r =>
+        rw [hC] at h
+        obtain ⟨pts, hr, hok⟩ := createOrUpdate_spec _ c w w1 r hC
+        obtain ⟨h1, h2⟩ := run_abs hr (fun it hit hn => hne (hit.1.symm.trans hn)) ha
+        cases r with
+        | error e => simp only [] at h; cases h; exact ⟨pts, hr.any, h1, h2, hl⟩
+        | ok c' =>
+          simp only [] at h
+          cases h
+          refine ⟨pts, hr.any, h1, h2, ?_⟩
+          intro e he
+          rcases mem_lput.1 he with rfl | ⟨he, _⟩
+          · exact fun hn => hne ((hok c' rfl).2.1.symm.trans hn)
+          · exact hl e he
+      · cases h
+        refine ⟨[], Run.refl _ _ _ _, fun p hp => (by cases hp), ha, ?_⟩
+        intro e he
+        rcases mem_lput.1 he with rfl | ⟨he, _⟩
+        · exact hne
+        · exact hl e he
+  | delete k m =>
+    simp only [step, delete] at h
+    cases hD : delLoop m st.cfg.steps w with
+    | mk w1 r =>
+    rw [hD] at h
+    obtain ⟨pts, hr, _⟩ := delLoop_spec m _ w w1 r hD
+    obtain ⟨h1, h2⟩ := run_abs hr (fun _ hit => hit.elim) ha
+    cases r with
+    | error e => simp only [] at h; cases h; exact ⟨pts, hr.any, h1, h2, hl⟩
+    | ok u => simp only [] at h; cases h; exact ⟨pts, hr.any, h1, h2, fun e he => hl e (mem_ldel.1 he).1⟩
+  | deleteUpstream k ord =>
+    simp only [step, deleteUpstream] at h
+    cases hD : delAll st.cfg.steps (arrange ord (llistUp k st.loc)) w with
+    | mk w1 r =>
+    rw [hD] at h
+    obtain ⟨pts, hr, _⟩ := delAll_spec _ _ w w1 r hD
+    obtain ⟨h1, h2⟩ := run_abs hr (fun _ hit => hit.elim) ha
+    cases r with
+    | error e => simp only [] at h; cases h; exact ⟨pts, hr.any, h1, h2, hl⟩
+    | ok u => simp only [] at h; cases h; exact ⟨pts, hr.any, h1, h2, fun e he => hl e (mem_ldelUp.1 he).1⟩
+  | flush ord =>
+    simp only [step, flush] at h
+    cases hS : syncAll sh st.cfg.shard st.cfg.steps (arrange ord st.loc) w with
+    | mk w1 r =>
+    rw [hS] at h
+    obtain ⟨pts, hr, _⟩ := syncAll_spec sh _ _ _ w w1 r hS
+    obtain ⟨h1, h2⟩ := run_abs hr (wl_abs hl (fun e he => mem_arrange.1 he)) ha
+    cases r <;> (simp only [] at h; cases h; exact ⟨pts, hr.any, h1, h2, hl⟩)
+  | stop ord =>
+    simp only [step, stop] at h
+    split at h
+    · cases h; exact ⟨[], Run.refl _ _ _ _, fun p hp => (by cases hp), ha, hl⟩
+    · cases hS : syncAll sh st.cfg.shard st.cfg.steps (arrange ord st.loc) w with
+      | mk w1 r =>
+      rw [hS] at h
+      obtain ⟨pts, hr, _⟩ := syncAll_spec sh _ _ _ w w1 r hS
+      obtain ⟨h1, h2⟩ := run_abs hr (wl_abs hl (fun e he => mem_arrange.1 he)) ha
+      cases r <;> (simp only [] at h; cases h; exact ⟨pts, hr.any, h1, h2, hl⟩)
+  | load =>
+    simp only [step, load] at h
+    cases hL : apiList w with
+    | mk w1 r =>
+    rw [hL] at h
+    obtain ⟨p, hr, hsame, hitems⟩ := apiList_spec w w1 r hL
+    obtain ⟨h1, h2⟩ := run_abs hr (fun _ hit => hit.elim) ha
+    cases r with
+    | error e => simp only [] at h; cases h; exact ⟨[p], hr.any, h1, h2, hl⟩
+    | ok items =>
+      have hi := hitems items rfl
+      simp only [] at h
+      cases h
+      refine ⟨[p], hr.any, h1, h2, ?_⟩
+      -- what is loaded comes from the API, which has no object named `n`
+      have hnone : ∀ c ∈ items, ¬ c.name = n := by
+        intro c hc hn
+        rw [hi] at hc
+        have := List.find?_eq_none.1 ha c hc
+        simp [hn] at this
+      clear hi hitems
+      suffices ∀ (items : List Cond) (l : Loc), (∀ c ∈ items, ¬ c.name = n) → (∀ e ∈ l, ¬ e.2.name = n) →
+          ∀ e ∈ loadAll sh st.cfg.shard items l, ¬ e.2.name = n from this items st.loc hnone hl
+      intro items
+      induction items with
+      | nil => intro l _ hl; exact hl
+      | cons c rest ih =>
+        intro l hc hl
+        simp only [loadAll]
+        split
+        · exact ih l (fun c' h' => hc c' (List.mem_cons_of_mem _ h')) hl
+        · apply ih _ (fun c' h' => hc c' (List.mem_cons_of_mem _ h'))
+          intro e he
+          rcases mem_lput.1 he with rfl | ⟨he, _⟩
+          · exact hc c (List.mem_cons_self ..)
+          · exact hl e he
+  | restart s wt =>
+    simp only [step] at h
+    cases h
+    exact ⟨[], Run.refl _ _ _ _, fun p hp => (by cases hp), ha, fun e he => (by cases he)⟩
+
+theorem stepI_abs {n : Str} {st st' : Store} {op : OpI} {w w' : World} {res : Res} {ir : Option (Res × World × World)}
+    (habs : Abs n st w.api) (hns : ¬ savesNameI n op) (h : stepI sh st op w = (st', w', res, ir)) :
+    ∃ pts, AnyRun w pts w' ∧ (∀ p ∈ pts, p.api.get n = none) ∧ Abs n st' w'.api := by
+  have hwin : ∀ {st2 : Store} {ord : List (Str × Str)} {at_ : Nat} {intr : Op} {w3 : World} {r : Except Err Unit}
+      {ir : Option (Res × World × World)}, ¬ savesName n intr →
+      syncWindow sh st (arrange ord st.loc) at_ intr w = (st2, w3, r, ir) →
+      ∃ pts, AnyRun w pts w3 ∧ (∀ p ∈ pts, p.api.get n = none) ∧ Abs n st2 w3.api := by
+    intro st2 ord at_ intr w3 r ir hni hS
+    have hsub : ∀ e ∈ arrange ord st.loc, e ∈ st.loc := fun e he => mem_arrange.1 he
+    rcases syncWindow_cases sh hS with ⟨_, rfl, hall⟩ | ⟨ires, w1, w2, u, _, h1, hI, h3⟩
+    · obtain ⟨pts, hr, _⟩ := syncAll_spec sh _ _ _ w w3 r hall
+      obtain ⟨ha1, ha2⟩ := run_abs hr (wl_abs habs.2 hsub) habs.1
+      exact ⟨pts, hr.any, ha1, ha2, habs.2⟩
+    · obtain ⟨p1, hr1, _⟩ := syncAll_spec sh _ _ _ w w1 _ h1
+      obtain ⟨ha1, ha2⟩ := run_abs hr1 (wl_abs habs.2 (fun e he => hsub e (List.mem_of_mem_take he))) habs.1
+      obtain ⟨p2, hr2, hb1, hb2⟩ := step_abs sh (n := n) ⟨ha2, habs.2⟩ hni hI
+      obtain ⟨p3, hr3, _⟩ := syncAll_spec sh _ _ _ w2 w3 r h3
+      -- the flush goes on with its snapshot, which has no entry named `n`
+      obtain ⟨hc1, hc2⟩ := run_abs hr3 (wl_abs habs.2 (fun e he => hsub e (List.mem_of_mem_drop he))) hb2.1
+      refine ⟨p1 ++ p2 ++ p3, (hr1.any.trans hr2).trans hr3.any, ?_, hc2, hb2.2⟩
+      intro p hp
+      rcases List.mem_append.1 hp with hp | hp
+      · rcases List.mem_append.1 hp with hp | hp
+        · exact ha1 p hp
+        · exact hb1 p hp
+      · exact hc1 p hp
+  cases op with
+  | plain op =>
+    cases hS : step sh st op w with
+    | mk st1 rest =>
+    obtain ⟨w1, r⟩ := rest
+    simp only [stepI, hS] at h
+    cases h
+    exact step_abs sh habs hns hS
+  | flushI ord at_ intr =>
+    cases hS : syncWindow sh st (arrange ord st.loc) at_ intr w with
+    | mk st2 rest =>
+    obtain ⟨w3, r, ir'⟩ := rest
+    simp only [stepI, hS] at h
+    obtain ⟨pts, hr, h1, h2⟩ := hwin hns hS
+    cases r <;> (simp only [] at h; cases h; exact ⟨pts, hr, h1, h2⟩)
+  | stopI ord at_ intr =>
+    simp only [stepI] at h
+    split at h
+    · cases h; exact ⟨[], Run.refl _ _ _ _, fun p hp => (by cases hp), habs⟩
+    · cases hS : syncWindow sh st (arrange ord st.loc) at_ intr w with
+      | mk st2 rest =>
+      obtain ⟨w3, r, ir'⟩ := rest
+      rw [hS] at h
+      obtain ⟨pts, hr, h1, h2⟩ := hwin hns hS
+      cases r with
+      | error e => simp only [] at h; cases h; exact ⟨pts, hr, h1, h2⟩
+      | ok u => simp only [] at h; cases h; exact ⟨pts, hr, h1, h2.1, h2.2⟩
+
+theorem runAll_abs {n : Str} : ∀ (ops : List OpI) (st : Store) (w : World),
+    Abs n st w.api → (∀ op ∈ ops, ¬ savesNameI n op) →
+    ∃ pts, AnyRun w pts (runAll sh st w ops).2 ∧ (∀ p ∈ pts, p.api.get n = none) ∧
+      Abs n (runAll sh st w ops).1 (runAll sh st w ops).2.api := by
+  intro ops
+  induction ops with
+  | nil => intro st w habs _; exact ⟨[], Run.refl _ _ _ _, fun p hp => (by cases hp), habs⟩
+  | cons op ops ih =>
+    intro st w habs hns
+    cases hS : stepI sh st op w with
+    | mk st' rest =>
+    obtain ⟨w', res, ir⟩ := rest
+    simp only [runAll, hS]
+    obtain ⟨p1, hr1, ha1, habs'⟩ := stepI_abs sh habs (hns op (List.mem_cons_self ..)) hS
+    obtain ⟨p2, hr2, ha2, habs''⟩ := ih st' w' habs' (fun op' h' => hns op' (List.mem_cons_of_mem _ h'))
+    refine ⟨p1 ++ p2, hr1.trans hr2, ?_, habs''⟩
+    intro p hp
+    rcases List.mem_append.1 hp with hp | hp
+    · exact ha1 p hp
+    · exact ha2 p hp
+
+/-! ## 8. Whole histories -/
+
+def OpIWf : OpI → Prop
+  | .plain op => OpWf up op
+  | .flushI _ _ i => OpWf up i
+  | .stopI _ _ i => OpWf up i
+
+theorem allowed_save {L : Locks} (hL : GoodLocks L) {wt : Bool} {intr : Op} (h : allowedIntr L wt intr = true) :
+    ∃ k c, intr = .save k c ∧ wt = false := by
+  obtain ⟨h1, h2, h3, h4⟩ := hL
+  cases intr <;> simp [allowedIntr, mayRunInside, isLoad, h1, h2, h3, h4] at h
+  exact ⟨_, _, rfl, h⟩
+
+/-- the mode of the store after an operation -/
+def modeAfter (wt : Bool) : OpI → Bool
+  | .plain (.restart _ wt') => wt'
+  | _ => wt
+
+theorem step_mode {st st' : Store} {op : Op} {w w' : World} {res : Res} (h : step sh st op w = (st', w', res)) :
+    st'.cfg.writeThrough = modeAfter st.cfg.writeThrough (.plain op) := by
+  cases op with
+  | save k c =>
+    simp only [step, save] at h
+    split at h
+    · cases h; rfl
+    · split at h
+      · split at h <;> (cases h; rfl)
+      · cases h; rfl
+  | delete k n =>
+    simp only [step, delete] at h
+    split at h <;> (cases h; rfl)
+  | deleteUpstream k ord =>
+    simp only [step, deleteUpstream] at h
+    split at h <;> (cases h; rfl)
+  | flush ord =>
+    simp only [step, flush] at h
+    split at h <;> (cases h; rfl)
+  | stop ord =>
+    simp only [step, stop] at h
+    split at h
+    · cases h; rfl
+    · split at h <;> (cases h; rfl)
+  | load =>
+    simp only [step, load] at h
+    split at h <;> (cases h; rfl)
+  | restart s wt =>
+    simp only [step] at h
+    cases h; rfl
+
+theorem opI_ok {g : Ghost} {st st' : Store} {w w' : World} {op : OpI} {o : Obs}
+    (hinv : Inv up g st w.api) (hwf : OpIWf up op)
+    (hal : ∀ ord at_ intr, (op = .flushI ord at_ intr ∨ op = .stopI ord at_ intr) →
+      ∃ k c, intr = .save k c ∧ st.cfg.writeThrough = false)
+    (h : observe sh st op w = (o, st', w')) :
+    (∀ q ∈ (checkObs sh g o).1, Jp q.1 q.2) ∧ Inv up (checkObs sh g o).2 st' w'.api ∧
+      st'.cfg.writeThrough = modeAfter st.cfg.writeThrough op := by
+  cases op with
+  | plain op =>
+    cases hS : step sh st op w with
+    | mk st1 rest =>
+    obtain ⟨w1, r⟩ := rest
+    simp only [observe, stepI, hS] at h
+    cases h
+    have hok := step_ok sh up hinv hwf hS
+    unfold OpOk at hok
+    simp only [checkObs]
+    refine ⟨?_, hok.2, step_mode sh hS⟩
+    intro q hq
+    rcases List.mem_append.1 hq with hq | hq
+    · exact hok.1 q hq
+    · rw [List.mem_singleton.1 hq]; exact hok.2.jp
+  | flushI ord at_ intr =>
+    obtain ⟨k, c, rfl, hper⟩ := hal ord at_ intr (.inl rfl)
+    cases hS : syncWindow sh st (arrange ord st.loc) at_ (.save k c) w with
+    | mk st2 rest =>
+    obtain ⟨w3, r, ir⟩ := rest
+    rcases syncWindow_cases sh hS with ⟨rfl, rfl, hall⟩ | ⟨ires, w1, w2, u, rfl, h1, hI, h3⟩
+    · -- the window did not open: a plain flush
+      simp only [observe, stepI, hS] at h
+      cases r with
+      | error e =>
+        have hf : flush sh st2 ord w = (st2, w3, Res.err .other) := by unfold flush; rw [hall]
+        have hok := flush_ok sh up hinv hf
+        unfold OpOk at hok
+        simp only [ghostPre, ghostPost_flush] at hok
+        simp only [] at h
+        cases h
+        simp only [checkObs, Bool.false_eq_true, if_false, reduceCtorEq, ↓reduceIte]
+        simp only [reduceCtorEq, ↓reduceIte] at hok
+        refine ⟨?_, hok.2, rfl⟩
+        intro q hq
+        rcases List.mem_append.1 hq with hq | hq
+        · exact hok.1 q hq
+        · rw [List.mem_singleton.1 hq]; exact hok.2.jp
+      | ok u =>
+        have hf : flush sh st2 ord w = (st2, w3, Res.ok) := by unfold flush; rw [hall]
+        have hok := flush_ok sh up hinv hf
+        unfold OpOk at hok
+        simp only [ghostPre, ghostPost_flush] at hok
+        simp only [] at h
+        cases h
+        simp only [checkObs, Bool.false_eq_true, if_false, reduceCtorEq, ↓reduceIte]
+        simp only [reduceCtorEq, ↓reduceIte] at hok
+        refine ⟨?_, hok.2, rfl⟩
+        intro q hq
+        rcases List.mem_append.1 hq with hq | hq
+        · exact hok.1 q hq
+        · rw [List.mem_singleton.1 hq]; exact hok.2.jp
+    · -- a periodic Save ran inside the window
+      have hwin := window_ok sh up hinv hwf hper h1 hI h3
+      obtain ⟨_, hcfg, _, _⟩ := save_periodic sh hper hI
+      simp only [observe, stepI, hS] at h
+      cases r with
+      | error e =>
+        simp only [] at h
+        cases h
+        simp only [checkObs, Bool.false_eq_true, if_false, if_true, reduceCtorEq, ↓reduceIte]
+        simp only [reduceCtorEq, ↓reduceIte] at hwin
+        refine ⟨?_, hwin.2, (by show _ = st.cfg.writeThrough; rw [hcfg])⟩
+        intro q hq
+        rcases List.mem_append.1 hq with hq | hq
+        · exact hwin.1 q hq
+        · rw [List.mem_singleton.1 hq]; exact hwin.2.jp
+      | ok u3 =>
+        simp only [] at h
+        cases h
+        simp only [checkObs, Bool.false_eq_true, if_false, if_true, reduceCtorEq, ↓reduceIte]
+        simp only [reduceCtorEq, ↓reduceIte] at hwin
+        refine ⟨?_, hwin.2, (by show _ = st.cfg.writeThrough; rw [hcfg])⟩
+        intro q hq
+        rcases List.mem_append.1 hq with hq | hq
+        · exact hwin.1 q hq
+        · rw [List.mem_singleton.1 hq]; exact hwin.2.jp
+  | stopI ord at_ intr =>
+    obtain ⟨k, c, rfl, hper⟩ := hal ord at_ intr (.inr rfl)
+    by_cases hst : st.stopped = true
+    · simp only [observe, stepI, hst, if_true] at h
+      cases h
+      simp only [checkObs, hst, if_true]
+      refine ⟨?_, hinv, rfl⟩
+      intro q hq
+      rw [List.mem_singleton.1 hq]; exact hinv.jp
+    · have hst' : st.stopped = false := by simpa using hst
+      cases hS : syncWindow sh st (arrange ord st.loc) at_ (.save k c) w with
+      | mk st2 rest =>
+      obtain ⟨w3, r, ir⟩ := rest
+      rcases syncWindow_cases sh hS with ⟨rfl, rfl, hall⟩ | ⟨ires, w1, w2, u, rfl, h1, hI, h3⟩
+      · simp only [observe, stepI, hst', Bool.false_eq_true, if_false, hS] at h
+        cases r with
+        | error e =>
+          have hf : flush sh st2 ord w = (st2, w3, Res.err .other) := by unfold flush; rw [hall]
+          have hok := flush_ok sh up hinv hf
+          unfold OpOk at hok
+          simp only [ghostPre, ghostPost_flush] at hok
+          simp only [] at h
+          cases h
+          simp only [checkObs, hst', Bool.false_eq_true, if_false, reduceCtorEq, ↓reduceIte]
+          simp only [reduceCtorEq, ↓reduceIte] at hok
+          refine ⟨?_, hok.2, rfl⟩
+          intro q hq
+          rcases List.mem_append.1 hq with hq | hq
+          · exact hok.1 q hq
+          · rw [List.mem_singleton.1 hq]; exact hok.2.jp
+        | ok u =>
+          have hf : flush sh st2 ord w = (st2, w3, Res.ok) := by unfold flush; rw [hall]
+          have hok := flush_ok sh up hinv hf
+          unfold OpOk at hok
+          simp only [ghostPre, ghostPost_flush] at hok
+          simp only [] at h
+          cases h
+          simp only [checkObs, hst', Bool.false_eq_true, if_false, reduceCtorEq, ↓reduceIte]
+          simp only [reduceCtorEq, ↓reduceIte] at hok
+          refine ⟨?_, ⟨hok.2.jp, hok.2.gl, hok.2.lwf, hok.2.coh, hok.2.awf⟩, rfl⟩
+          intro q hq
+          rcases List.mem_append.1 hq with hq | hq
+          · exact hok.1 q hq
+          · rw [List.mem_singleton.1 hq]; exact hok.2.jp
+      · have hwin := window_ok sh up hinv hwf hper h1 hI h3
+        obtain ⟨_, hcfg, _, _⟩ := save_periodic sh hper hI
+        simp only [observe, stepI, hst', Bool.false_eq_true, if_false, hS] at h
+        cases r with
+        | error e =>
+          simp only [] at h
+          cases h
+          simp only [checkObs, hst', Bool.false_eq_true, if_false, if_true, reduceCtorEq, ↓reduceIte]
+          simp only [reduceCtorEq, ↓reduceIte] at hwin
+          refine ⟨?_, hwin.2, (by show _ = st.cfg.writeThrough; rw [hcfg])⟩
+          intro q hq
+          rcases List.mem_append.1 hq with hq | hq
+          · exact hwin.1 q hq
+          · rw [List.mem_singleton.1 hq]; exact hwin.2.jp
+        | ok u3 =>
+          simp only [] at h
+          cases h
+          simp only [checkObs, hst', Bool.false_eq_true, if_false, if_true, reduceCtorEq, ↓reduceIte]
+          simp only [reduceCtorEq, ↓reduceIte] at hwin
+          refine ⟨?_, ⟨hwin.2.jp, hwin.2.gl, hwin.2.lwf, hwin.2.coh, hwin.2.awf⟩, (by show _ = st.cfg.writeThrough; rw [hcfg])⟩
+          intro q hq
+          rcases List.mem_append.1 hq with hq | hq
+          · exact hwin.1 q hq
+          · rw [List.mem_singleton.1 hq]; exact hwin.2.jp
+
+theorem allowedHist_cons {L : Locks} {wt : Bool} {op : OpI} {ops : List OpI} (h : allowedHist L wt (op :: ops) = true) :
+    allowedHist L (modeAfter wt op) ops = true ∧
+    (∀ ord at_ intr, (op = .flushI ord at_ intr ∨ op = .stopI ord at_ intr) → allowedIntr L wt intr = true) := by
+  cases op with
+  | plain o =>
+    cases o <;> simp only [allowedHist, modeAfter] at h ⊢ <;>
+      exact ⟨h, fun _ _ _ hh => by rcases hh with hh | hh <;> cases hh⟩
+  | flushI ord at_ intr =>
+    simp only [allowedHist, Bool.and_eq_true] at h
+    refine ⟨h.2, fun _ _ _ hh => ?_⟩
+    rcases hh with hh | hh <;> cases hh
+    exact h.1
+  | stopI ord at_ intr =>
+    simp only [allowedHist, Bool.and_eq_true] at h
+    refine ⟨h.2, fun _ _ _ hh => ?_⟩
+    rcases hh with hh | hh <;> cases hh
+    exact h.1
+
+/-- every (claims, API) pair of an allowed history honours the judge -/
+theorem checkAll_ok {L : Locks} (hL : GoodLocks L) : ∀ (ops : List OpI) (st : Store) (g : Ghost) (w : World),
+    Inv up g st w.api → (∀ op ∈ ops, OpIWf up op) → allowedHist L st.cfg.writeThrough ops = true →
+    ∀ p ∈ checkAll sh st g w ops, Jp p.1 p.2 := by
+  intro ops
+  induction ops with
+  | nil => intro st g w _ _ _ p hp; simp [checkAll] at hp
+  | cons op ops ih =>
+    intro st g w hinv hwf hal p hp
+    obtain ⟨hal2, hal1⟩ := allowedHist_cons hal
+    cases hO : observe sh st op w with
+    | mk o rest =>
+    obtain ⟨st', w'⟩ := rest
+    simp only [checkAll, hO] at hp
+    have hok := opI_ok sh up hinv (hwf op (List.mem_cons_self ..))
+      (fun ord at_ intr hh => allowed_save hL (hal1 ord at_ intr hh)) hO
+    rcases List.mem_append.1 hp with hp | hp
+    · exact hok.1 p hp
+    · exact ih st' _ w' hok.2.1 (fun op' h' => hwf op' (List.mem_cons_of_mem _ h')) (hok.2.2 ▸ hal2) p hp
+
 end
 
 end KG.Lemmas.K8sStore
